@@ -172,6 +172,10 @@ func runDiff(prop string, seed int64, n int, driverPath, corpusDir, outPath stri
 			fmt.Fprintln(os.Stderr, "driver failed on case", i, err)
 			b, _ := json.Marshal(c)
 			fmt.Fprintln(os.Stderr, string(b))
+			if outPath != "" {
+				// keep the request the model did not answer, for analysis
+				ioutil.WriteFile(outPath+".driverfail", b, 0o644)
+			}
 			return 2
 		}
 		r := runReal(c)
